@@ -262,9 +262,17 @@ impl TypeChecker {
         self.const_eval_cache.clear();
         self.type_info = TypeCheckInfo::default();
 
-        // First pass: collect type declarations
+        // First pass: collect type declarations. Signatures are resolved while collecting, and a method or function
+        // may mention its own type or a type declared further down, which is not registered yet the first time
+        // round (it would resolve to a type variable): collect once to register every name, then again so that
+        // every signature resolves against the complete set.
         for decl in &program.declarations {
             self.collect_declaration(decl);
+        }
+        for decl in &program.declarations {
+            if !matches!(decl.node, Declaration::Import(_)) {
+                self.collect_declaration(decl);
+            }
         }
 
         // Second pass: check consts first so their resolved types are available to later checks.
